@@ -16,6 +16,8 @@ def common_len(a, b):
 def spec_unresolved(n, grp, edges):
     """exists a simple cycle of the connection multigraph that no connection on it resolves"""
     res = []
+    # an async_requests connection contributes, beside its data connection, a zero-delay edge of its own
+    edges = [(a, b, k.rstrip('a')) for a, b, k in edges] + [(a, b, 'p') for a, b, k in edges if k.endswith('a')]
     def check(cyc):
         nodes = {edges[e][0] for e in cyc}
         for e in cyc:
@@ -37,7 +39,9 @@ def spec_unresolved(n, grp, edges):
 
 
 def make_case(n, grp, edges):
-    es = [dict(a=a, b=b, sa='eo', da='ti', kind=k, shift=1 if k == 'ts' else 0, init=False) for a, b, k in edges]
+    es = [dict(a=a, b=b, sa='eo', da='ti', kind=k.rstrip('a'), shift=1 if k.rstrip('a') == 'ts' else 0, init=False) for a, b, k in edges]
+    for e, (a, b, k) in zip(es, edges):
+        if k.endswith('a'): e['async'] = True
     return dict(n=n, types=['hybrid'] * n, grp=[list(g) for g in grp], edges=es, until=1,
                 beh=[{'type': 'hybrid', 'self_steps': {}, 'outputs': {}} for _ in range(n)], init=[], maxloop=100)
 
@@ -74,6 +78,7 @@ def run(out, info, tier, seed):
     obl, log, broken = common.check_props_file('C06', info)
     for o in obl: out.add_obligation(o['name'], o['ok'], o['assumptions'])
     out.add_obligation('Static.CycleP (closure invariant: every stored path is a walk composing to the stored delay)', info.vo_ok('Static/CycleP'), '')
+    out.add_obligation('Static.CycleC (worklist invariant: completeness for uniform delay shapes)', info.vo_ok('Static/CycleC'), '')
     bad = common.hygiene()
     out.add_obligation('hygiene: no Admitted/admit/Axiom/Parameter/Unset Guard in coq/', not bad, '; '.join(bad[:5]))
     if broken: out.notes.append('broken files: ' + ', '.join(broken) + '\n' + log[-1500:])
@@ -99,10 +104,24 @@ def run(out, info, tier, seed):
         edges = []
         for _ in range(rng.randint(2, 7)):
             a, b = rng.randrange(n), rng.randrange(n)
-            k = rng.choice(['p', 'p', 'w', 'ts'])
-            if k == 'w' and common_len(grp[a], grp[b]) == 0: k = 'p'
+            k = rng.choice(['p', 'p', 'w', 'ts', 'pa', 'tsa', 'wa'])
+            if k.startswith('w') and common_len(grp[a], grp[b]) == 0: k = 'p'
+            if k.endswith('a') and a == b: k = k[:-1]
             edges.append((a, b, k))
         extra.append((n, tuple(grp), tuple(edges)))
+    # all multigraphs over two or three simulators with up to three connections, async_requests variants included, in a
+    # flat placement and in one group (connection order matters for the delay an async connection leaves behind)
+    akinds = ('p', 'w', 'ts', 'pa', 'wa', 'tsa')
+    aspace = []
+    for n in (2, 3):
+        pairs = [(a, b, k) for a in range(n) for b in range(n) for k in akinds if not (k.endswith('a') and a == b)]
+        for grp in (tuple(() for _ in range(n)), tuple((0,) for _ in range(n))):
+            for m in (2, 3):
+                for edges in itertools.permutations(pairs, m) if n == 2 and m == 2 else itertools.combinations(pairs, m):
+                    if not any(k.endswith('a') for _, _, k in edges): continue
+                    if any(k.startswith('w') and not grp[a] for a, b, k in edges): continue
+                    aspace.append((n, grp, edges))
+    extra += aspace if exhaustive else rng.sample(aspace, 600)
     cases = cases + extra
     # witness of known finding F9 (non-convex: P -> R -> S leaves group G and comes back; weak edges inside G)
     cases.append((5, ((0,), (0,), (0,), (0,), ()), ((0, 4, 'p'), (4, 1, 'p'), (1, 3, 'w'), (3, 2, 'w'), (0, 2, 'w'))))
@@ -134,6 +153,10 @@ def run(out, info, tier, seed):
             if mv.split()[0] != iv:
                 if not (not conv and 'incomparable' in (mv, iv)):
                     mism.append(dict(desc, model=mv, implementation=iv))
+            elif iv == 'accepted' and len({tuple(g) for g in grp}) == 1:
+                # all simulators in one group (or none): the premises of the completeness theorem must hold
+                if 'complete' in mv: hist['accepted, completeness theorem applies'] = hist.get('accepted, completeness theorem applies', 0) + 1
+                else: mism.append(dict(desc, model=mv, implementation=iv, note='premises of C06_accepted_cycles_are_resolved (wk_indel, uni_indel, cov_indel) not established'))
             elif iv == 'rejected':
                 # the implementation's own path must be a zero-delay closed walk according to the model
                 p = [idx[s] for s in ipath]
